@@ -21,7 +21,7 @@ RULE = ('(address) Address(...) with each of the 5 value parameters in {absent, 
         'documentation and with the extracted Coq Params.validate (C16_params_iff). (run) every accepted configuration is driven with '
         'payloads and random traffic: no exception may escape process(), send() raises at most ValueError.'
         ' (set_address) sequences of set_address() with fully defined, partial and non-address arguments on a live layer: accepted exactly for fully defined addresses, a refused one leaves the layer working on the last accepted address, no other exception escapes.'
-        ' (set) sequences of up to 7 params.set(key, value) on a live layer, continued after a refusal (set() assigns before it validates, so the refused value stays and every later call is judged on the whole attribute state); wait_func takes part with good, raising, wrong-arity and non-callable values.')
+        ' (set) sequences of up to 7 params.set(key, value) on a live layer, continued after a refusal (set() assigns before it validates, so the refused value stays and every later call is judged on the whole attribute state); wait_func takes part with good, raising, wrong-arity and non-callable values; one call in seven is the two-step form set(key, value, validate=False) + load_params().')
 ASSUME = ['bool is not generated where an int is documented; unknown keys and non-int physical_id / functional_id are outside the quantifier; '
           'rate-limit products beyond 2^1023 are not generated']
 
@@ -391,8 +391,15 @@ def run_shard(campaign, shard, nshards, seed, tier):
                 part.d['evaluations'] += 1
                 if any(isinstance(nxt[x], bool) for x in PKEYS if x not in ('can_fd', 'bitrate_switch', 'rate_limit_enable', 'listen_mode', 'blocking_send', 'override_receiver_stmin', 'rate_limit_window_size')):
                     break
+                staged = rng.random() < 0.15
                 try:
-                    layer.params.set(k, v)
+                    if staged:
+                        # the two-step form: stage the value without validation, then load_params() validates the whole state
+                        layer.params.set(k, v, validate=False)
+                        layer.load_params()
+                        hist[-1] = hist[-1] + ('validate=False + load_params()',)
+                    else:
+                        layer.params.set(k, v)
                     got = 'ok'
                 except ValueError:
                     got = 'valueerror'
